@@ -8,15 +8,21 @@ classes is wrapped by a counting shim for the duration of a case (class-level di
 restored; no source hook), and four probe factories are registered with default settings.
 
 Per operation the adaptor emits
-  * the model line: the operation described as primitive effects (which object's which cell was
-    rewritten by which method, structural inserts/removes, glyph add/delete/rename).  Contents are
-    opaque to the model; guards that make a call a no-op (`setStartPoint` on an open contour, equal
-    value assigned, ...) are evaluated by the adaptor on the pre-state; the structural effect of the
-    compound glyph mutators (clear*, decompose*, copyDataFromGlyph, move) is read off the
-    implementation (lists of children before/after);
+  * the model line: public calls as `(call receiver mutator eff|same [argument])` - `same` = the condition of
+    the method's no-op guard holds in the state before the call (equal value assigned, `setStartPoint` on an
+    open contour, ...), evaluated here on the real objects; what a `same` call does and which content cells an
+    effective call rewrites is decided by the TABLE in lean/DefconModel/ReprCells.lean; structural inserts /
+    removes, glyph add / delete / rename as primitives; `(hold obj)` / `(release obj)` / `(disable obj)` /
+    `(enable obj)` for the user's notification controls; `(l1 item)` for the second layer; and `(obs ...)`, the
+    content cells (points, identifiers, component data, glyph attributes, child lists, groups dict) whose
+    FINGERPRINT on the real objects changed during the operation.  The structural effect of decomposeComponent /
+    decomposeAllComponents / copyDataFromGlyph / pen drawing (new objects, new ids) is still read off the
+    implementation (lists of children before / after);
   * the implementation's observable bookkeeping: for requests the number of factory invocations they
-    caused, and after every operation `representationKeys()` of every live object.
-The model answers the same two things; they are diffed line by line.
+    caused, and after every operation `representationKeys()` of every live object of both layers.
+The model answers the same things and a verdict on the observed cells (`(cells undeclared missing)`: cells that
+changed although the model rewrote none of them, cells a table row says must change that did not); they are diffed
+line by line.
 
 DIRECT ORACLE (independent of the Lean model), evaluated after every operation:
   stale      every value cached in any attached object equals a fresh call of the registered factory
@@ -25,6 +31,12 @@ DIRECT ORACLE (independent of the Lean model), evaluated after every operation:
              every value returned by a request equals a fresh call too;
   runs-once  between two mutating operations no (object, name, kwargs) had its factory run twice;
   separate   different kwargs never share an entry (the probes return their kwargs).
+While the user holds notifications, `stale` exempts the objects ABOVE a held object (the held object, its glyph, the
+components on that glyph, their glyphs ...): the property quantifies over requests and public mutators, not over
+holdNotifications / disableNotifications (Props.C03.stale_inside_hold is the witness that a value requested inside
+a hold can be stale); everything else is judged inside the hold, everything after the release of the last hold.
+After a disableNotifications nothing is judged any more (the eviction is lost for good, disable_loses_eviction).
+A same-value call of a method that compares first is not a change for `runs-once`.
 """
 import copy
 import logging
@@ -45,17 +57,26 @@ RULE = ("op sequences over a font with <= 6 glyph names, line / cubic / quadrati
         "components, the groups dict; every public point-list / attribute / structural mutator of Contour, Component, "
         "Glyph, every dict mutator of Groups, glyph add / delete / rename, interleaved with requests for every "
         "built-in representation, four counting probes registered with default settings (with and without kwargs), "
-        "property reads, hasCachedRepresentation / representationKeys / destroyRepresentation; non-trivial = at "
+        "property reads, hasCachedRepresentation / representationKeys / destroyRepresentation; same-value calls of every "
+        "guarded setter; blocks in which the user holds (or disables) the notifications of one to three contours / "
+        "components / glyphs / the groups (counted, nested, released in any order) around inner mutators and requests; a "
+        "second layer with overlapping glyph names (components whose base name exists in the other layer only), loose "
+        "objects moving between the layers; non-trivial = at "
         "least one request answered from the cache or recomputed AFTER a mutator touched an object that already "
         "had cached entries; distinct = distinct op lists")
 ASSUMPTIONS = [
     "Point objects are edited only through their contour's mutators (Point is documented as posting no notifications); "
     "group lists are replaced, not edited in place (documented in Groups)",
-    "the user does not hold or disable the notifications of the objects concerned, and registers no observers that "
-    "request representations from inside a notification callback",
+    "the property's histories are interleavings of requests with public mutators: holdNotifications / disableNotifications "
+    "are neither, a value requested inside a user hold may be stale (stale_inside_hold) - the oracle exempts the objects "
+    "above a held object while the hold lasts and judges everything once the holds are released (release_restores); "
+    "while anything is held the histories contain requests, cache calls and inner mutators only (no structural "
+    "operation, no base-glyph re-assignment); no observers that request representations from inside a callback in the "
+    "modelled cases (the reader cases are judged by the oracle alone)",
     "component graphs are acyclic (cycles crash defcon with RecursionError), also under renames; renames and newGlyph "
     "target names that are not present (replacing a loaded glyph leaves the old object observed: F16, C11's slice)",
-    "one layer (components resolve their base glyph in their own layer); glyphs are created in memory (lazy loading is C07)",
+    "two layers of one font (components resolve their base glyph in their own layer: other_layer_invisible); glyphs are "
+    "created in memory (lazy loading is C07)",
     "'flattened' is requested only on line / cubic outlines (fontPens' FlattenPen raises TypeError on quadratic ones)",
     "a default-registered factory on Component reads the component's own attributes only (Component.Changed is not "
     "posted for base-glyph edits; the built-in bounds factories are keyed on Component.BaseGlyphDataChanged instead)",
@@ -67,8 +88,12 @@ ASSUMPTIONS = [
 TRUSTED = [
     "harness/repr_extract.py (AST extraction of representationFactories / posted notifications / addObserver calls; "
     "syntactic: every post in a method body counts whatever branch it is in; fails closed on unknown shapes)",
-    "contents are opaque to the model: the adaptor tells it which cell a call rewrote, evaluates no-op guards on the "
-    "pre-state and reads the structural effect of compound glyph mutators off the implementation",
+    "contents are opaque to the model: the adaptor evaluates the condition of a method's guard on the pre-state (eff | same) "
+    "and fingerprints the content cells of the real objects before and after every operation; which cells a call rewrites, "
+    "what a `same` call does and the comparison with the fingerprints are the model's (ReprCells.lean); the structural "
+    "effect of decompose* / copyDataFromGlyph / pen drawing is read off the implementation",
+    "harness/repr_extract.py also extracts, per method, whether every post sits behind a test (guards) and the literal "
+    "destroyRepresentation calls (destroys): syntactic",
     "built-in factories are functions of the view defined in Repr.lean (`viewOf`): contour points; component data + "
     "base outline by name; glyph outline; groups dict - validated only through the oracle's fresh-call comparison",
 ]
@@ -301,6 +326,26 @@ def gen_gmut(rng):
     return ["g", g, "dirty"]
 
 
+def gen_same(rng):
+    """a call that hands a method the value that is already there (or the state in which its guard makes it a no-op)"""
+    r = rng.random()
+    if r < 0.30:
+        return ["k", gen_cref(rng, 0.05), "transformation", "same"]
+    if r < 0.42:
+        return ["k", gen_cref(rng, 0.05), "move", 0, 0]
+    if r < 0.54:
+        return ["k", gen_cref(rng, 0.05), "baseGlyph", "same"]
+    if r < 0.66:
+        return ["g", rng.choice(NAMES[:4]), rng.choice(["width", "note", "unicodes"]), "same"]
+    if r < 0.78:
+        return ["groups", "set", rng.choice(GROUPKEYS), "same"]
+    if r < 0.88:
+        return ["c", gen_cref(rng, 0.05), "identifier", "id1"]
+    if r < 0.94:
+        return ["c", gen_cref(rng, 0.05), "genId"]
+    return ["c", gen_cref(rng, 0.05), "move", 0, 0]
+
+
 def gen_struct(rng):
     r = rng.random()
     g = rng.choice(NAMES[:4])
@@ -396,7 +441,11 @@ def gen_case(rng, maxlen):
             ops.append(gen_request(rng))
             continue
         kind = focus if (focus != "mix" and rng.random() < 0.6) else rng.choice(["c", "c", "k", "g", "s", "s", "groups"])
-        if kind == "s" and rng.random() < 0.2:
+        if rng.random() < 0.08:
+            ops.append(gen_same(rng))
+            if rng.random() < 0.7:
+                ops.append(["getall"])
+        elif kind == "s" and rng.random() < 0.2:
             ops.extend(gen_churn(rng))
         else:
             ops.append({"c": gen_cmut, "k": gen_kmut, "g": gen_gmut, "s": gen_struct, "groups": gen_groups}[kind](rng))
@@ -405,6 +454,204 @@ def gen_case(rng, maxlen):
     if rng.random() < 0.8:
         ops.append(["getall"])
     return dict(ops=ops)
+
+
+# ---------------------------------------------------------------------------------------
+# user holds / disables, second layer
+# ---------------------------------------------------------------------------------------
+
+
+def gen_inner(rng, focus=None):
+    """an operation that is modelled while something is held: request, inner mutator"""
+    r = rng.random()
+    if r < 0.38:
+        return gen_request(rng)
+    if r < 0.44:
+        return ["getall"]
+    kind = focus if (focus and rng.random() < 0.6) else rng.choice(["c", "c", "c", "k", "g", "groups"])
+    if kind == "c":
+        return gen_cmut(rng)
+    if kind == "k":
+        op = gen_kmut(rng)
+        while op[2] == "baseGlyph":
+            op = gen_kmut(rng)
+        return op
+    if kind == "g":
+        g = rng.choice(NAMES[:4])
+        rr = rng.random()
+        if rr < 0.25:
+            return ["g", g, "width", rng.choice([0, 100, 200])]
+        if rr < 0.35:
+            return ["g", g, "note", rng.choice([None, "n", "m"])]
+        if rr < 0.85:
+            return ["g", g, "move", 2 * rng.randint(-10, 10), 2 * rng.randint(-10, 10)]
+        return ["g", g, "dirty"]
+    return gen_groups(rng)
+
+
+def gen_hold_block(rng, what="hold"):
+    """hold (disable) one to three objects, edit and ask, release (enable) them in some order, read everything"""
+    un = {"hold": "release", "disable": "enable"}[what]
+    refs = []
+    for _ in range(rng.choice([1, 1, 1, 2, 2, 3])):
+        r = rng.random()
+        if r < 0.5:
+            refs.append(["c", ["a", rng.choice(NAMES[:4]), rng.randint(0, 2)]])
+        elif r < 0.8:
+            refs.append(["g", rng.choice(NAMES[:4])])
+        elif r < 0.93:
+            refs.append(["k", ["a", rng.choice(NAMES[:3]), rng.randint(0, 1)]])
+        else:
+            refs.append(["groups"])
+    ops = [[what, o] for o in refs]
+    if rng.random() < 0.25:
+        ops.append([what, refs[0]])            # counted: held twice
+        refs = refs + [refs[0]]
+    focus = rng.choice(["c", "c", "k", "g", None])
+    for _ in range(rng.randint(2, 7)):
+        ops.append(gen_inner(rng, focus))
+    order = list(refs)
+    rng.shuffle(order)
+    for i, o in enumerate(order):
+        ops.append([un, o])
+        if rng.random() < 0.4 and i + 1 < len(order):
+            ops.append(gen_inner(rng, focus))
+    ops.append(["getall"])
+    return ops
+
+
+def gen_hold_case(rng, maxlen, what="hold"):
+    ops = gen_setup(rng)
+    ops.append(["getall"])
+    for _ in range(rng.randint(1, 3)):
+        for _ in range(rng.randint(0, 3)):
+            ops.append(gen_inner(rng) if rng.random() < 0.7 else gen_struct(rng))
+        if rng.random() < 0.5:
+            ops.append(["getall"])
+        ops.extend(gen_hold_block(rng, what))
+    return dict(ops=ops)
+
+
+def gen_directed_holds(rng):
+    """the chain A -> B -> C -> D with every cache filled; ONE object held; one edit below / at / above it; reads inside
+    the hold; release; reads"""
+    cases = []
+    edits = [["c", ["a", "C", 0], "appendPoint", [30, 30, "line", False]],
+             ["c", ["a", "C", 0], "move", 10, 20],
+             ["c", ["a", "C", 0], "reverse"],
+             ["c", ["a", "C", 0], "removePoint", 1],
+             ["c", ["a", "C", 0], "dirty"],
+             ["c", ["a", "D", 0], "removeSegment", 1, False],
+             ["k", ["a", "B", 0], "transformation", [1, 0, 0, 1, 8, 8]],
+             ["k", ["a", "B", 0], "move", 4, 4],
+             ["g", "C", "move", 6, 6],
+             ["g", "C", "width", 333]]
+    helds = [["c", ["a", "C", 0]], ["g", "C"], ["k", ["a", "B", 0]], ["g", "B"], ["c", ["a", "D", 0]], ["g", "A"]]
+    for what in ("hold", "hold", "disable"):
+        un = {"hold": "release", "disable": "enable"}[what]
+        for h in helds:
+            for e in rng.sample(edits, 4):
+                ops = [["newGlyph", n] for n in NAMES[:4]]
+                for n in NAMES[:4]:
+                    ops.append(["pen", n, sh_square(2 * rng.randint(0, 10), 0, 20, 20)])
+                for i in range(3):
+                    ops.append(["instk", NAMES[i], NAMES[i + 1], gen_tr(rng)])
+                ops.append(["getall"])
+                ops.append([what, h])
+                ops.append(copy.deepcopy(e))
+                ops.append(["getall"])
+                if rng.random() < 0.5:
+                    ops.append(copy.deepcopy(rng.choice(edits)))
+                    ops.append(["getall"])
+                ops.append([un, h])
+                ops.append(["getall"])
+                cases.append(dict(ops=ops))
+    return cases
+
+
+def wrap2(op):
+    return ["L2", op]
+
+
+def gen_layer_case(rng, maxlen):
+    """two layers with overlapping glyph names: components of one layer whose base name exists in the other layer
+    only, the same name present in both, edits on either side, everything read on both sides"""
+    ops = []
+    n0 = rng.sample(NAMES[:5], rng.randint(2, 4))
+    n1 = rng.sample(NAMES[:5], rng.randint(2, 4))
+    for n in n0:
+        ops.append(["newGlyph", n])
+        if rng.random() < 0.8:
+            ops.append(["pen", n, gen_shape(rng, quad_ok=False)])
+    for n in n1:
+        ops.append(wrap2(["newGlyph", n]))
+        if rng.random() < 0.8:
+            ops.append(wrap2(["pen", n, gen_shape(rng, quad_ok=False)]))
+    # components: base names drawn from the names of EITHER layer
+    both = sorted(set(n0) | set(n1))
+    for n in n0:
+        for _ in range(rng.randint(0, 2)):
+            ops.append(["instk", n, rng.choice(both), gen_tr(rng)])
+    for n in n1:
+        for _ in range(rng.randint(0, 2)):
+            ops.append(wrap2(["instk", n, rng.choice(both), gen_tr(rng)]))
+    ops.append(["getall"])
+    ops.append(wrap2(["getall"]))
+    for _ in range(rng.randint(4, maxlen)):
+        r = rng.random()
+        if r < 0.3:
+            op = gen_request(rng)
+        elif r < 0.55:
+            op = gen_cmut(rng)
+        elif r < 0.65:
+            op = gen_kmut(rng)
+        elif r < 0.75:
+            op = gen_gmut(rng)
+        else:
+            op = gen_struct(rng)
+        if rng.random() < 0.5:
+            op = wrap2(op)
+        ops.append(op)
+        if rng.random() < 0.3:
+            ops.append(["getall"])
+            ops.append(wrap2(["getall"]))
+    ops.append(["getall"])
+    ops.append(wrap2(["getall"]))
+    return dict(ops=ops)
+
+
+def gen_directed_layers(rng):
+    """layer 1: A with a component on X, X missing.  layer 2: X exists.  Everything that happens to layer 2's X
+    (edit, rename away and back, delete, re-create) must leave layer 1's component alone - and the other way round."""
+    cases = []
+    events = [[["c", ["a", "X", 0], "appendPoint", [50, 50, "line", False]]],
+              [["c", ["a", "X", 0], "move", 10, 10]],
+              [["rename", "X", "Y"]],
+              [["rename", "X", "Y"], ["getall"], ["rename", "Y", "X"]],
+              [["delGlyph", "X"]],
+              [["delGlyph", "X"], ["getall"], ["newGlyph", "X"], ["pen", "X", sh_tri(0, 0, 30, 30)]],
+              [["pen", "X", sh_square(0, 0, 60, 60)]],
+              [["newGlyph", "Z"], ["instk", "Z", "X", [1, 0, 0, 1, 0, 0]]]]
+    for ev in events:
+        for flip in (False, True):
+            a = (lambda o: o) if not flip else wrap2
+            b = wrap2 if not flip else (lambda o: o)
+            ops = [a(["newGlyph", "A"]), a(["pen", "A", sh_square(0, 0, 20, 20)]),
+                   a(["instk", "A", "X", [1, 0, 0, 1, 10, 10]]),
+                   b(["newGlyph", "X"]), b(["pen", "X", sh_square(0, 0, 40, 40)]),
+                   b(["newGlyph", "B"]), b(["instk", "B", "X", [2, 0, 0, 2, 0, 0]]),
+                   a(["getall"]), b(["getall"])]
+            for e in ev:
+                ops.append(b(copy.deepcopy(e)))
+                ops.append(a(["getall"]))
+                ops.append(b(["getall"]))
+            # now the name appears in the first layer too
+            ops.append(a(["newGlyph", "X"]))
+            ops.append(a(["pen", "X", sh_tri(0, 0, 10, 10)]))
+            ops.append(a(["getall"]))
+            ops.append(b(["getall"]))
+            cases.append(dict(ops=ops))
+    return cases
 
 
 ORACLE_ONLY_OPS = ["correctDirection", "contourInside", "insertGlyph", "deserializeGlyph", "layerBounds",
@@ -475,6 +722,14 @@ def gen_directed(rng):
         muts.append([["instk", b, NAMES[3], gen_tr(rng)]])
     for _ in range(6):
         muts.append([gen_groups(rng)])
+    muts.append([["k", ["a", NAMES[0], 0], "transformation", "same"]])
+    muts.append([["k", ["a", NAMES[1], 0], "move", 0, 0]])
+    muts.append([["k", ["a", NAMES[1], 0], "baseGlyph", "same"]])
+    muts.append([["g", NAMES[2], "width", "same"]])
+    muts.append([["g", NAMES[1], "unicodes", "same"]])
+    muts.append([["groups", "set", "public.kern1.O", "same"]])
+    muts.append([["c", ["a", NAMES[2], 0], "identifier", "id1"], ["getall"], ["c", ["a", NAMES[2], 0], "identifier", "id2"]])
+    muts.append([["c", ["a", NAMES[2], 0], "genId"], ["getall"], ["c", ["a", NAMES[2], 0], "genId"]])
     for mu in muts:
         ops = [["newGlyph", n] for n in NAMES[:4]]
         # A -> B -> C -> D chain, contours everywhere
@@ -506,6 +761,15 @@ def generate(rng, tier):
         yield c
     for c in directed[::2]:
         yield dict(ops=copy.deepcopy(c["ops"]), model=False, reader=True)
+    for c in gen_directed_holds(rng):
+        yield c
+    for c in gen_directed_layers(rng):
+        yield c
+    nh, nl = (60, 50) if tier == "quick" else (1500, 1200)
+    for i in range(nh):
+        yield gen_hold_case(rng, maxlen, "disable" if i % 6 == 5 else "hold")
+    for i in range(nl):
+        yield gen_layer_case(rng, maxlen)
     for i in range(n):
         if i % 10 == 9:
             yield gen_oracle_case(rng, maxlen // 2)
@@ -635,9 +899,22 @@ def enc_kw(kw):
 
 
 def enc_obj(key):
-    if key == ("groups",):
+    """key: (kind, ident) for the first layer, (kind, ident, 1) for the second"""
+    if key[0] == "groups":
         return Atom("groups")
-    return [Atom(key[0]), key[1]]
+    e = [Atom(key[0]), key[1]]
+    if len(key) > 2 and key[2]:
+        return [Atom("l1"), e]
+    return e
+
+
+def wrap_l1(prim):
+    return [Atom("l1"), prim]
+
+
+CELLS = {"contour": ["contourPoints", "contourIdent"], "comp": ["compData", "compIdent"],
+         "glyph": ["glyphAttrs", "glyphContours", "glyphComps"], "groups": ["groupsDict"]}
+NO_CELLS = [Atom("cells"), [], []]
 
 
 OK = Atom("ok")
@@ -730,9 +1007,14 @@ class Impl(object):
         self.defcon = defcon
         self.cls = {"Contour": Contour, "Component": Component, "Glyph": Glyph, "Groups": Groups}
         self.font = Font()
-        self.layer = self.font.layers.defaultLayer
+        self.layers = [self.font.layers.defaultLayer, self.font.newLayer("alt")]
+        self.cur = 0                  # the layer the current operation works in
         self.groups = self.font.groups
-        self.keep = [self.font, self.layer, self.groups]
+        self.keep = [self.font, self.groups] + self.layers
+        self.pool = {}                # id(obj) of a loose contour / component -> layer whose model pool holds its record
+        self.uholds = {}              # id(obj) -> (obj, count): the user's holds
+        self.udis = {}                # id(obj) -> (obj, count): the user's disables
+        self.ever_disabled = False
         self.cobj, self.cidof = {}, {}
         self.kobj, self.kidof = {}, {}
         self.gobj, self.gidof = {}, {}
@@ -752,6 +1034,10 @@ class Impl(object):
         self.with_model = with_model
         self.judge = True             # the oracle is evaluated (off for model_lines and after the first violation)
         self.last_want = None
+
+    @property
+    def layer(self):
+        return self.layers[self.cur]
 
     # ---- set-up / tear-down of the shims -------------------------------------------------
     def install(self):
@@ -787,17 +1073,33 @@ class Impl(object):
         self.next_id += 1
         return i
 
+    def lay_of(self, obj):
+        """0 / 1: the layer an object lives in (a loose contour / component: the layer whose pool has its record)"""
+        i = id(obj)
+        if i in self.gidof:
+            return 1 if obj.layer is self.layers[1] else 0
+        if i in self.cidof or i in self.kidof:
+            g = obj.glyph
+            if g is not None:
+                return 1 if g.layer is self.layers[1] else 0
+            return self.pool.get(i, 0)
+        return 0
+
     def key_of(self, obj):
         i = id(obj)
         if i in self.cidof:
-            return ("contour", self.cidof[i])
-        if i in self.kidof:
-            return ("comp", self.kidof[i])
-        if i in self.gidof:
-            return ("glyph", obj.name)
-        if obj is self.groups:
+            k = ("contour", self.cidof[i])
+        elif i in self.kidof:
+            k = ("comp", self.kidof[i])
+        elif i in self.gidof:
+            k = ("glyph", obj.name)
+        elif obj is self.groups:
             return ("groups",)
-        return ("other", 0)
+        else:
+            return ("other", 0)
+        if self.lay_of(obj):
+            return k + (1,)
+        return k
 
     def adopt_contour(self, c):
         cid = self.fresh_id()
@@ -816,20 +1118,82 @@ class Impl(object):
     def glyph_names(self):
         return sorted(self.layer.keys())
 
-    def tracked(self):
-        res = [(("groups",), self.groups)]
-        for name in self.glyph_names():
-            g = self.layer[name]
-            res.append((("glyph", name), g))
-            for c in g:
-                res.append((("contour", self.cidof[id(c)]), c))
-            for k in g.components:
-                res.append((("comp", self.kidof[id(k)]), k))
+    def tracked(self, only_cur=False):
+        """(key, object) of everything alive: the groups, the glyphs of both layers with their contours and components,
+        the loose ones.  only_cur: what the current layer's operations address"""
+        res = []
+        if not only_cur or self.cur == 0:
+            res.append((("groups",), self.groups))
+        for li, layer in enumerate(self.layers):
+            if only_cur and li != self.cur:
+                continue
+            for name in sorted(layer.keys()):
+                g = layer[name]
+                res.append((self.key_of(g), g))
+                for c in g:
+                    res.append((self.key_of(c), c))
+                for k in g.components:
+                    res.append((self.key_of(k), k))
         for cid in self.looseC:
-            res.append((("contour", cid), self.cobj[cid]))
+            c = self.cobj[cid]
+            if not only_cur or self.pool.get(id(c), 0) == self.cur:
+                res.append((self.key_of(c), c))
         for kid in self.looseK:
-            res.append((("comp", kid), self.kobj[kid]))
+            k = self.kobj[kid]
+            if not only_cur or self.pool.get(id(k), 0) == self.cur:
+                res.append((self.key_of(k), k))
         return res
+
+    def loose_c(self):
+        """ids of the loose contours the current layer's operations can address"""
+        return [cid for cid in self.looseC if self.pool.get(id(self.cobj[cid]), 0) == self.cur]
+
+    def loose_k(self):
+        return [kid for kid in self.looseK if self.pool.get(id(self.kobj[kid]), 0) == self.cur]
+
+    def let_go_c(self, c):
+        cid = self.cidof[id(c)]
+        self.looseC.append(cid)
+        self.pool[id(c)] = self.cur
+        return cid
+
+    def let_go_k(self, k):
+        kid = self.kidof[id(k)]
+        self.looseK.append(kid)
+        self.pool[id(k)] = self.cur
+        return kid
+
+    # ---- fingerprints of the content cells ----------------------------------------------------------
+    def cells_of(self, key, obj):
+        kind = key[0]
+        if kind == "contour":
+            return dict(contourPoints=tuple((p.x, p.y, p.segmentType, bool(p.smooth), p.name) for p in obj),
+                        contourIdent=(obj.identifier, tuple(p.identifier for p in obj if p.identifier is not None)))
+        if kind == "comp":
+            return dict(compData=(obj.baseGlyph, tuple(obj.transformation)), compIdent=obj.identifier)
+        if kind == "glyph":
+            return dict(glyphAttrs=(obj.name, obj.width, obj.height, tuple(obj.unicodes), obj.note),
+                        glyphContours=tuple(self.cidof.get(id(c), -1) for c in obj),
+                        glyphComps=tuple(self.kidof.get(id(k), -1) for k in obj.components))
+        if kind == "groups":
+            return dict(groupsDict=tuple(sorted((k, tuple(v)) for k, v in obj.items())))
+        return {}
+
+    def fingerprints(self):
+        fp = {}
+        for key, obj in self.tracked():
+            for cell, v in self.cells_of(key, obj).items():
+                fp[(key, cell)] = v
+        return fp
+
+    def observed(self, before):
+        """the cells (of objects alive before and after) whose fingerprint changed: the `obs` item of a line"""
+        after = self.fingerprints()
+        out = []
+        for kc in sorted(after, key=repr):
+            if kc in before and before[kc] != after[kc]:
+                out.append([enc_obj(kc[0]), kc[1]])
+        return [Atom("obs")] + out
 
     # ---- resolution of references ------------------------------------------------------------
     def res_glyph(self, name):
@@ -837,9 +1201,10 @@ class Impl(object):
 
     def res_contour(self, ref):
         if ref[0] == "l":
-            if not self.looseC:
+            lc = self.loose_c()
+            if not lc:
                 return None
-            return self.cobj[self.looseC[ref[1] % len(self.looseC)]]
+            return self.cobj[lc[ref[1] % len(lc)]]
         g = self.res_glyph(ref[1])
         if g is None or len(g) == 0:
             # fall back to the first glyph (by name) that has contours, so that most ops do something
@@ -853,9 +1218,10 @@ class Impl(object):
 
     def res_comp(self, ref):
         if ref[0] == "l":
-            if not self.looseK:
+            lk = self.loose_k()
+            if not lk:
                 return None
-            return self.kobj[self.looseK[ref[1] % len(self.looseK)]]
+            return self.kobj[lk[ref[1] % len(lk)]]
         g = self.res_glyph(ref[1])
         if g is None or not g.components:
             for name in self.glyph_names():
@@ -874,6 +1240,8 @@ class Impl(object):
             return self.res_comp(o[1]), "Component"
         if o[0] == "g":
             return self.res_glyph(o[1]), "Glyph"
+        if self.cur:
+            return None, "Groups"           # the groups are addressed through the first layer
         return self.groups, "Groups"
 
     # ---- acyclicity (domain) --------------------------------------------------------------------
@@ -923,10 +1291,40 @@ class Impl(object):
             obj._representations.clear()
             obj._representations.update(saved)
 
+    def tainted(self):
+        """ids of the objects whose cached values the user's holds may legitimately keep stale: a held object, the glyph
+        of a held contour / component, every component whose base glyph (in its own layer) is tainted, and so on
+        upwards.  Everything else must be fresh even while something is held."""
+        t = set(self.uholds)
+        changed = True
+        while changed:
+            changed = False
+            for layer in self.layers:
+                for name in layer.keys():
+                    g = layer[name]
+                    kids = list(g) + list(g.components)
+                    if id(g) not in t and any(id(x) in t for x in kids):
+                        t.add(id(g))
+                        changed = True
+                    for k in g.components:
+                        b = k.baseGlyph
+                        if id(k) not in t and b is not None and b in layer and id(layer[b]) in t:
+                            t.add(id(k))
+                            changed = True
+        return t
+
+    def exempt(self, obj):
+        if self.ever_disabled:
+            return True
+        return bool(self.uholds) and id(obj) in self.tainted()
+
     def sweep(self, site):
-        """oracle clause `stale`: every cached value of every attached object is what the factory computes now"""
-        if not self.judge:
+        """oracle clause `stale`: every cached value of every attached object is what the factory computes now.
+        While the user holds notifications the objects above a held one are exempt (the property quantifies over
+        mutators and requests, not over the notification controls); after a disable nothing is judged any more."""
+        if not self.judge or self.ever_disabled:
             return
+        exempt = self.tainted() if self.uholds else ()
         for key, obj in self.tracked():
             if obj.dispatcher is None:
                 continue
@@ -939,6 +1337,12 @@ class Impl(object):
                     want = self.fresh(obj, c, name, kw)
                 except Exception as e:        # the factory cannot run now: nothing to compare with
                     self.bump("oracle.fresh-raised." + type(e).__name__)
+                    continue
+                if id(obj) in exempt:
+                    # counted, not judged: how often a user hold really keeps a stale value around
+                    self.bump("hold.entries-above-a-held-object")
+                    if not same_value(canon_value(cached), canon_value(want)):
+                        self.bump("hold.stale-inside-user-hold")
                     continue
                 if not same_value(canon_value(cached), canon_value(want)):
                     self.viol.append(dict(clause="C03/stale", signature="C03/stale/%s/%s" % (name, site),
@@ -986,7 +1390,8 @@ class Impl(object):
         if key[0] == "comp":
             return self.kobj.get(key[1])
         if key[0] == "glyph":
-            return self.layer[key[1]] if key[1] in self.layer else None
+            layer = self.layers[1 if len(key) > 2 and key[2] else 0]
+            return layer[key[1]] if key[1] in layer else None
         if key[0] == "groups":
             return self.groups
         return None
@@ -1008,7 +1413,7 @@ class Impl(object):
             if self.judge:
                 if want is None:
                     want = (self.fresh(obj, c, name, kw),)
-                if not same_value(canon_value(got), canon_value(want[0])):
+                if not self.exempt(obj) and not same_value(canon_value(got), canon_value(want[0])):
                     self.viol.append(dict(clause="C03/stale", signature="C03/stale/%s/%s" % (name, site),
                                           step=self.step, op=self.opname, object=list(key), kwargs=kw,
                                           cached=repr(canon_value(got))[:300], fresh=repr(canon_value(want[0]))[:300]))
@@ -1021,7 +1426,7 @@ class Impl(object):
         self.bump("get." + name.split(".")[-1])
         if kw:
             self.bump("get.kwargs")
-        return [Atom("get"), enc_obj(key), name, enc_kw(kw)], [Atom("got"), n]
+        return [Atom("get"), enc_obj(key[:2]), name, enc_kw(kw)], [Atom("got"), n]
 
     def quadratic(self, contour):
         return any(p.segmentType == "qcurve" for p in contour) or (len(contour) > 0 and all(p.segmentType is None for p in contour))
@@ -1056,11 +1461,13 @@ class Impl(object):
                 cid = self.cidof[i]
                 prims.append([Atom("remContour"), gid, cid])
                 self.looseC.append(cid)
+                self.pool[i] = self.cur
         for i in reversed(bk):
             if i not in nowk:
                 kid = self.kidof[i]
                 prims.append([Atom("remComp"), gid, kid])
                 self.looseK.append(kid)
+                self.pool[i] = self.cur
         for idx, c in enumerate(g):
             if id(c) not in bc:
                 if id(c) in self.cidof:
@@ -1090,13 +1497,77 @@ class Impl(object):
         for p in shape:
             contour.appendPoint(self.make_pt(p))
 
+    def held_any(self):
+        return bool(self.uholds) or bool(self.udis)
+
+    STRUCTURAL = ("newGlyph", "delGlyph", "rename", "pen", "instc", "insc", "remc", "instk", "insk", "remk", "x")
+
     def do(self, op):
-        """-> (list of model primitives, list of impl results, mutating?)   None = skipped"""
+        """-> (list of model items, list of impl results, mutating?)   None = skipped"""
+        if op[0] == "L2":
+            self.cur = 1
+            try:
+                r = self.do(op[1])
+            finally:
+                self.cur = 0
+            if r is None:
+                return None
+            return [wrap_l1(p) for p in r[0]], r[1], r[2]
+        if op[0] in ("hold", "release", "disable", "enable"):
+            return self.do_hold(op[0], op[1])
+        if self.held_any():
+            # domain of the hold model: while the user holds or disables anything, only requests, cache calls and
+            # the inner mutators (no object changes its glyph, no base name or glyph name changes)
+            if op[0] in self.STRUCTURAL:
+                return None
+            if op[0] == "k" and op[2] == "baseGlyph":
+                return None
+            if op[0] == "g" and op[2] in ("clear", "clearContours", "clearComponents", "decomposeAll", "decompose", "copyFrom"):
+                return None
+        return self._do(op)
+
+    def do_hold(self, what, oref):
+        obj, c = self.res_obj(oref)
+        if obj is None:
+            return None
+        key = self.key_of(obj)
+        book = self.uholds if what in ("hold", "release") else self.udis
+        i = id(obj)
+        if what in ("release", "enable"):
+            if i not in book:
+                return None                      # releasing what is not held raises KeyError in the centre: not requested
+            if obj.dispatcher is None:
+                return None
+            n = book[i][1] - 1
+            if n:
+                book[i] = (obj, n)
+            else:
+                del book[i]
+            if what == "release":
+                obj.releaseHeldNotifications()
+            else:
+                obj.enableNotifications()
+            self.bump("user." + what)
+            return [[Atom(what), enc_obj(key[:2])]], [OK], True
+        if obj.dispatcher is None:
+            return None
+        if sum(n for _, n in book.values()) >= 3:
+            return None
+        book[i] = (obj, book.get(i, (obj, 0))[1] + 1)
+        if what == "hold":
+            obj.holdNotifications(note="held by the C03 harness")
+        else:
+            obj.disableNotifications()
+            self.ever_disabled = True
+        self.bump("user." + what)
+        return [[Atom(what), enc_obj(key[:2])]], [OK], True
+
+    def _do(self, op):
         k = op[0]
         L = self.layer
         if k == "getall":
             prims, res = [], []
-            for key, obj in self.tracked():
+            for key, obj in self.tracked(only_cur=True):
                 c = {"contour": "Contour", "comp": "Component", "glyph": "Glyph", "groups": "Groups"}[key[0]]
                 for name in REPS[c]:
                     if not self.flatten_ok(obj, c, name):
@@ -1123,16 +1594,16 @@ class Impl(object):
             key = self.key_of(obj)
             if k == "has":
                 b = obj.hasCachedRepresentation(op[2], **dict(op[3]))
-                return [[Atom("has"), enc_obj(key), op[2], enc_kw(op[3])]], [bool(b)], False
+                return [[Atom("has"), enc_obj(key[:2]), op[2], enc_kw(op[3])]], [bool(b)], False
             if k == "keys":
                 ks = obj.representationKeys()
-                return [[Atom("keys"), enc_obj(key)]], [[Atom("set")] + [[n, enc_subkey(kw)] for n, kw in ks]], False
+                return [[Atom("keys"), enc_obj(key[:2])]], [[Atom("set")] + [[n, enc_subkey(kw)] for n, kw in ks]], False
             # explicit destruction legitimately makes the next request recompute: it ends the interval
             if k == "destroy":
                 obj.destroyRepresentation(op[2], **dict(op[3]))
-                return [[Atom("destroy"), enc_obj(key), op[2], enc_kw(op[3])]], [OK], True
+                return [[Atom("destroy"), enc_obj(key[:2]), op[2], enc_kw(op[3])]], [OK], True
             obj.destroyAllRepresentations()
-            return [[Atom("destroyAll"), enc_obj(key)]], [OK], True
+            return [[Atom("destroyAll"), enc_obj(key[:2])]], [OK], True
         # ------------------------------------------------------------------ layer level
         if k == "newGlyph":
             if op[1] in L:
@@ -1186,6 +1657,7 @@ class Impl(object):
             self.fill(c, op[1])
             cid = self.adopt_contour(c)
             self.looseC.append(cid)
+            self.pool[id(c)] = self.cur
             return [[Atom("mkContour"), cid]], [OK], True
         if k == "insc":
             g = self.res_glyph(op[1])
@@ -1207,8 +1679,7 @@ class Impl(object):
                 return None
             g = c.glyph
             g.removeContour(c)
-            cid = self.cidof[id(c)]
-            self.looseC.append(cid)
+            cid = self.let_go_c(c)
             return [[Atom("remContour"), g.name, cid]], [OK], True
         # ------------------------------------------------------------------ components in / out
         if k == "instk":
@@ -1231,6 +1702,7 @@ class Impl(object):
             comp.transformation = tuple(op[2])
             kid = self.adopt_comp(comp)
             self.looseK.append(kid)
+            self.pool[id(comp)] = self.cur
             return [[Atom("mkComp"), kid, opt(op[1])]], [OK], True
         if k == "insk":
             g = self.res_glyph(op[1])
@@ -1252,8 +1724,7 @@ class Impl(object):
                 return None
             g = comp.glyph
             g.removeComponent(comp)
-            kid = self.kidof[id(comp)]
-            self.looseK.append(kid)
+            kid = self.let_go_k(comp)
             return [[Atom("remComp"), g.name, kid]], [OK], True
         if k == "c":
             c = self.res_contour(op[1])
@@ -1293,13 +1764,14 @@ class Impl(object):
                 want = abs(want)
             if pname == "clockwise":
                 want = want < 0
-            if self.judge and obj.dispatcher is not None and not same_value(canon_value(got), canon_value(want)):
+            if self.judge and obj.dispatcher is not None and not self.exempt(obj) and not same_value(
+                    canon_value(got), canon_value(want)):
                 self.viol.append(dict(clause="C03/stale", signature="C03/stale/%s/prop.%s" % (name, pname), step=self.step,
                                       op=self.opname, object=list(key), cached=repr(got)[:200], fresh=repr(want)[:200]))
             if obj.dispatcher is not None and self.touched_cached:
                 self.nontrivial = True
             self.bump("prop.%s.%s" % (c.lower(), pname))
-            return [[Atom("get"), enc_obj(key), name, []]], [[Atom("got"), n]], False
+            return [[Atom("get"), enc_obj(key[:2]), name, []]], [[Atom("got"), n]], False
         if c == "Glyph":
             if pname == "area":
                 if not self.flatten_ok(obj, c, "defcon.glyph.area"):
@@ -1323,14 +1795,35 @@ class Impl(object):
                     b = self.fresh(x, xc, xn, {})
                     if b is not None:
                         want = b if want is None else unionRect(want, b)
-                prims.append([Atom("get"), enc_obj(kx), xn, []])
+                prims.append([Atom("get"), enc_obj(kx[:2]), xn, []])
                 res.append([Atom("got"), sum(1 for e in entries if e[0] == kx and e[1] == xn)])
-            if self.judge and not same_value(canon_value(got), canon_value(want)):
+            if self.judge and not self.exempt(obj) and not same_value(canon_value(got), canon_value(want)):
                 self.viol.append(dict(clause="C03/stale", signature="C03/stale/glyph.%s/prop" % pname, step=self.step,
                                       op=self.opname, object=list(key), cached=repr(got)[:200], fresh=repr(want)[:200]))
             self.bump("prop.glyph." + pname)
             return prims, res, False
         return None
+
+    # ---- public calls: (receiver, mutator, eff | same) -------------------------------------------------
+    # `same` = the condition of the method's no-op guard holds in the state before the call (equal value, open
+    # contour, empty dict ...), evaluated here on the real objects; what a `same` call does - nothing, or everything
+    # but a rewrite - and which cells an effective call rewrites is decided by the table in lean/DefconModel/ReprCells.lean
+    # methods that compare first and return: called with what is already there they change nothing and must not cost a
+    # cached value (oracle clause runs-once: such a call is not a change).  The other mutators post whatever they are given.
+    COMPARES_FIRST = {"setStartPoint", "_set_clockwise", "_set_identifier", "generateIdentifier", "generateIdentifierForPoint",
+                      "_set_baseGlyph", "_set_transformation", "_set_width", "_set_height", "_set_note", "_set_unicodes",
+                      "decomposeAllComponents", "__setitem__", "pop", "setdefault"}
+
+    def call(self, obj, meth, eff=True, arg=None):
+        if not eff and (meth in self.COMPARES_FIRST or (meth in ("move", "clear") and obj is not None and
+                                                        type(obj).__name__ in ("Component", "Groups"))):
+            self.noop_calls += 1
+        else:
+            self.real_calls += 1
+        item = [Atom("call"), enc_obj(self.key_of(obj)[:2]), meth, Atom("eff" if eff else "same")]
+        if arg is not None:
+            item.append(arg)
+        return item
 
     # ---- contour mutators -------------------------------------------------------------------
     def do_contour(self, c, meth, args):
@@ -1338,8 +1831,8 @@ class Impl(object):
         cid = self.cidof[id(c)]
         n = len(c)
 
-        def cm(m, cell="pts"):
-            return [Atom("cmut"), cid, m]
+        def cm(m, eff=True):
+            return self.call(c, m, eff)
         self.bump("c." + meth)
         try:
             if meth in ("appendPoint", "addPoint"):
@@ -1368,7 +1861,7 @@ class Impl(object):
                 on = [i for i, p in enumerate(c) if p.segmentType is not None]
                 if len(on) < 2 or c.open:
                     c.setStartPoint(idx)
-                    return [], [], True
+                    return [cm(meth, False)], [OK], True
                 idx = on[args[0] % len(on)]
                 c.setStartPoint(idx)
                 return [cm(meth)], [OK], True
@@ -1389,7 +1882,7 @@ class Impl(object):
                 return [cm("removePoint")], [OK], True
             if meth == "clear":
                 c.clear()
-                return [cm(meth)], [OK], True
+                return [cm(meth, n > 0)], [OK], True
             if meth == "reverse":
                 if n == 0 or not self.flatten_ok(c, "Contour", "defcon.contour.area"):
                     return None             # reverse() reads self.clockwise first: the area factory must be able to run
@@ -1415,7 +1908,7 @@ class Impl(object):
                 return [cm("splitAndInsertPointAtSegmentAndT")], [OK], True
             if meth == "move":
                 c.move((args[0], args[1]))
-                return [[Atom("cmove"), cid, args[0], args[1]]], [OK], True
+                return [self.call(c, "move", (args[0], args[1]) != (0, 0) and n > 0, [Atom("delta"), args[0], args[1]])], [OK], True
             if meth == "clockwise":
                 if n == 0 or not self.flatten_ok(c, "Contour", "defcon.contour.area"):
                     return None
@@ -1424,36 +1917,29 @@ class Impl(object):
                 nn = len(self.log) - before
                 prims = [[Atom("get"), enc_obj(("contour", cid)), "defcon.contour.area", []]]
                 res = [[Atom("got"), nn]]
-                if cur != bool(args[0]):
-                    c.clockwise = bool(args[0])
-                    prims.append(cm("_set_clockwise"))
-                    res.append(OK)
-                else:
-                    c.clockwise = bool(args[0])
+                c.clockwise = bool(args[0])
+                prims.append(cm("_set_clockwise", cur != bool(args[0])))
+                res.append(OK)
                 return prims, res, True
             if meth == "identifier":
                 if c.identifier is not None or args[0] is None:
                     c.identifier = args[0]
-                    return [], [], True
+                    return [cm("_set_identifier", False)], [OK], True
                 if args[0] in c.identifiers:
                     c.identifier = args[0]                     # AssertionError
                 c.identifier = args[0]
-                return [cm("_set_identifier", "attr")], [OK], True
+                return [cm("_set_identifier")], [OK], True
             if meth == "genId":
-                if c.identifier is not None:
-                    c.generateIdentifier()
-                    return [], [], True
+                eff = c.identifier is None
                 c.generateIdentifier()
-                return [cm("generateIdentifier", "attr")], [OK], True
+                return [cm("generateIdentifier", eff)], [OK], True
             if meth == "genPointId":
                 if n == 0:
                     return None
                 pt = c[args[0] % n]
-                if pt.identifier is not None:
-                    c.generateIdentifierForPoint(pt)
-                    return [], [], True
+                eff = pt.identifier is None
                 c.generateIdentifierForPoint(pt)
-                return [cm("generateIdentifierForPoint", "attr")], [OK], True
+                return [cm("generateIdentifierForPoint", eff)], [OK], True
             if meth == "setData":
                 pen = [("beginPath", (), {"identifier": None})]
                 for p in args[0]:
@@ -1463,7 +1949,7 @@ class Impl(object):
                 return [cm("setDataFromSerialization")], [OK], True
             if meth == "dirty":
                 c.dirty = True
-                return [cm("_set_dirty", "attr")], [OK], True
+                return [cm("_set_dirty")], [OK], True
         except (AssertionError, ValueError, IndexError, NotImplementedError) as e:
             self.bump("err." + type(e).__name__)
             return [], [], True
@@ -1471,17 +1957,18 @@ class Impl(object):
 
     # ---- component mutators -----------------------------------------------------------------
     def do_comp(self, comp, meth, args):
-        kid = self.kidof[id(comp)]
         self.bump("k." + meth)
 
-        def km(m, cell="pts"):
-            return [Atom("kmut"), kid, m]
+        def km(m, eff=True):
+            return self.call(comp, m, eff)
         try:
             if meth == "baseGlyph":
                 new = args[0]
+                if new == "same":
+                    new = comp.baseGlyph
                 if new == comp.baseGlyph:
                     comp.baseGlyph = new
-                    return [], [], True
+                    return [self.call(comp, "_set_baseGlyph", False, [Atom("base"), opt(new)])], [OK], True
                 g = comp.glyph
                 if g is not None and new is not None and g.name in self.layer:
                     rest = [(g.name, k.baseGlyph) for k in g.components if k is not comp and k.baseGlyph is not None]
@@ -1490,35 +1977,29 @@ class Impl(object):
                     if not self.acyclic(edges):
                         return None
                 comp.baseGlyph = new
-                return [[Atom("ksetBase"), kid, opt(new)]], [OK], True
+                return [self.call(comp, "_set_baseGlyph", True, [Atom("base"), opt(new)])], [OK], True
             if meth == "transformation":
-                new = tuple(args[0])
-                if new == comp.transformation:
-                    comp.transformation = new
-                    return [], [], True
+                new = comp.transformation if args[0] == "same" else tuple(args[0])
+                eff = new != comp.transformation
                 comp.transformation = new
-                return [km("_set_transformation")], [OK], True
+                return [km("_set_transformation", eff)], [OK], True
             if meth == "move":
-                if (args[0], args[1]) == (0, 0):
-                    comp.move((0, 0))
-                    return [], [], True
+                eff = (args[0], args[1]) != (0, 0)
                 comp.move((args[0], args[1]))
-                return [km("move")], [OK], True
+                return [km("move", eff)], [OK], True
             if meth == "identifier":
                 if comp.identifier is not None or args[0] is None:
                     comp.identifier = args[0]
-                    return [], [], True
+                    return [km("_set_identifier", False)], [OK], True
                 comp.identifier = args[0]
-                return [km("_set_identifier", "attr")], [OK], True
+                return [km("_set_identifier")], [OK], True
             if meth == "genId":
-                if comp.identifier is not None:
-                    comp.generateIdentifier()
-                    return [], [], True
+                eff = comp.identifier is None
                 comp.generateIdentifier()
-                return [km("generateIdentifier", "attr")], [OK], True
+                return [km("generateIdentifier", eff)], [OK], True
             if meth == "dirty":
                 comp.dirty = True
-                return [km("_set_dirty", "attr")], [OK], True
+                return [km("_set_dirty")], [OK], True
         except (AssertionError, ValueError) as e:
             self.bump("err." + type(e).__name__)
             return [], [], True
@@ -1526,42 +2007,39 @@ class Impl(object):
 
     # ---- glyph mutators -----------------------------------------------------------------------
     def do_glyph(self, g, meth, args):
-        gid = g.name
         self.bump("g." + meth)
 
-        def gm(m):
-            return [Atom("gmut"), gid, m]
+        def gm(m, eff=True, arg=None):
+            return self.call(g, m, eff, arg)
         if meth in ("width", "height", "note", "unicodes"):
-            if getattr(g, meth) == args[0]:
-                setattr(g, meth, args[0])
-                return [], [], True
+            if args[0] == "same":
+                args = [getattr(g, meth)]
+            eff = getattr(g, meth) != args[0]
             setattr(g, meth, args[0])
-            return [gm("_set_" + meth)], [OK], True
+            return [gm("_set_" + meth, eff)], [OK], True
         if meth == "dirty":
             g.dirty = True
             return [gm("_set_dirty")], [OK], True
         if meth == "move":
             dx, dy = args
-            prims = []
-            for c in g:
-                prims.append([Atom("cmove"), self.cidof[id(c)], dx, dy])
-            for k in g.components:
-                if (dx, dy) != (0, 0):
-                    prims.append([Atom("kmut"), self.kidof[id(k)], "move"])
             g.move((dx, dy))
-            return prims, [OK] * len(prims), True
-        before = self.snap(g)
+            return [gm("move", True, [Atom("delta"), dx, dy])], [OK], True
         had_image = g._image is not None
-        if meth == "clear":
-            g.clear()
-        elif meth == "clearContours":
-            g.clearContours()
-        elif meth == "clearComponents":
-            g.clearComponents()
-        elif meth == "decomposeAll":
+        if meth in ("clear", "clearContours", "clearComponents"):
+            for c in list(g) if meth != "clearComponents" else []:
+                self.let_go_c(c)
+            for k in list(g.components) if meth != "clearContours" else []:
+                self.let_go_k(k)
+            getattr(g, meth)()
+            items = [gm(meth)]
+            if meth == "clear" and had_image:
+                items.append(gm("clearImage"))        # `self.image = None` posts when an Image object exists
+            return items, [OK] * len(items), True
+        before = self.snap(g)
+        if meth == "decomposeAll":
             if not g.components:
                 g.decomposeAllComponents()
-                return [], [], True
+                return [gm("decomposeAllComponents", False)], [OK], True
             g.decomposeAllComponents()
         elif meth == "decompose":
             if not g.components:
@@ -1582,61 +2060,58 @@ class Impl(object):
             g.copyDataFromGlyph(src)
         else:
             raise ValueError(meth)
+        # the structural effect of these three (new objects with new ids) is read off the implementation
         prims = self.diff_prims(g, before)
         if meth in ("decomposeAll", "decompose"):
             prims.append(gm("decomposeComponent" if meth == "decompose" else "decomposeAllComponents"))
         if meth == "copyFrom":
             prims.append(gm("copyDataFromGlyph"))
-        if meth == "clear" and had_image:
-            prims.append(gm("clearImage"))        # `self.image = None` posts when an Image object exists
         return prims, [OK] * len(prims), True
 
     # ---- groups -----------------------------------------------------------------------------------
     def do_groups(self, meth, args):
+        if self.cur:
+            return None
         G = self.groups
         self.bump("groups." + meth)
 
-        def gs(m):
-            return [Atom("gset"), m]
+        def gs(m, eff=True):
+            return self.call(G, m, eff)
         try:
             if meth == "set":
                 k, v = args
-                if k in G and v is not None and G[k] == v:
-                    G[k] = list(v)
-                    return [], [], True
+                if v == "same":
+                    if k not in G:
+                        return None
+                    v = list(G[k])
+                eff = not (k in G and v is not None and G[k] == v)
                 G[k] = list(v)
-                return [gs("__setitem__")], [OK], True
+                return [gs("__setitem__", eff)], [OK], True
             if meth == "del":
                 if args[0] not in G:
                     return None
                 del G[args[0]]
                 return [gs("__delitem__")], [OK], True
             if meth == "clear":
-                if not len(G):
-                    G.clear()
-                    return [], [], True
+                eff = len(G) > 0
                 G.clear()
-                return [gs("clear")], [OK], True
+                return [gs("clear", eff)], [OK], True
             if meth == "update":
                 G.update({k: list(v) for k, v in args[0].items()})
                 return [gs("update")], [OK], True
             if meth == "pop":
-                if args[0] not in G:
-                    G.pop(args[0], None)
-                    return [], [], True
-                G.pop(args[0])
-                return [gs("pop")], [OK], True
+                eff = args[0] in G
+                G.pop(args[0], None)
+                return [gs("pop", eff)], [OK], True
             if meth == "popitem":
                 if not len(G):
                     return None
                 G.popitem()
                 return [gs("popitem")], [OK], True
             if meth == "setdefault":
-                if args[0] in G:
-                    G.setdefault(args[0], list(args[1]))
-                    return [], [], True
+                eff = args[0] not in G
                 G.setdefault(args[0], list(args[1]))
-                return [gs("setdefault")], [OK], True
+                return [gs("setdefault", eff)], [OK], True
             if meth == "ior":
                 G |= {k: list(v) for k, v in args[0].items()}
                 return [gs("__ior__")], [OK], True
@@ -1684,10 +2159,9 @@ class Impl(object):
                 data.pop("name", None)
                 data.pop("unicodes", None)
                 for c in g:
-                    cid = self.cidof[id(c)]
-                    self.looseC.append(cid)
+                    self.let_go_c(c)
                 for k in g.components:
-                    self.looseK.append(self.kidof[id(k)])
+                    self.let_go_k(k)
                 g.setDataFromSerialization(data)
             elif what in ("newGlyphOver", "insertGlyphOver", "renameOver"):
                 # another glyph object takes the name of an existing glyph (the one that components may reference)
@@ -1705,9 +2179,9 @@ class Impl(object):
                     return None
                 # what the replaced glyph held is let go
                 for c in tgt:
-                    self.looseC.append(self.cidof[id(c)])
+                    self.let_go_c(c)
                 for k in tgt.components:
-                    self.looseK.append(self.kidof[id(k)])
+                    self.let_go_k(k)
                 if what == "newGlyphOver":
                     new = self.layer.newGlyph(other)
                 elif what == "insertGlyphOver":
@@ -1721,6 +2195,19 @@ class Impl(object):
                     self.gobj[gid] = new
                     self.gidof[id(new)] = gid
             elif what == "layerBounds":
+                # only when every factory involved can run: a request whose factory raises (an outline the segment pens
+                # refuse) leaves an empty sub-dict behind in getRepresentation, and Contour.move then raises KeyError(None)
+                # - outside the property (it says nothing about failing factories), so such requests are not made
+                for name in self.glyph_names():
+                    gg = self.layer[name]
+                    for x in gg:
+                        if not (self.flatten_ok(x, "Contour", "defcon.contour.bounds") and
+                                self.flatten_ok(x, "Contour", "defcon.contour.controlPointBounds")):
+                            return None
+                    for x in gg.components:
+                        if not (self.flatten_ok(x, "Component", "defcon.component.bounds") and
+                                self.flatten_ok(x, "Component", "defcon.component.controlPointBounds")):
+                            return None
                 self.layer.bounds
                 self.layer.controlPointBounds
         except Exception as e:
@@ -1757,7 +2244,7 @@ def trace(case, judge=True):
     try:
         for line in _prelude():
             im.lines.append(line)
-            im.outs.append([[OK], [Atom("set")], True])
+            im.outs.append([[OK], [Atom("set")], True, Atom("unobserved")])
         pre = len(im.lines)
         for i, op in enumerate(case["ops"]):
             im.step = pre + i
@@ -1771,6 +2258,8 @@ def trace(case, judge=True):
             im.begin_op()
             if reader is not None:
                 reader.sync()
+            fp_before = im.fingerprints() if with_model else None
+            im.noop_calls = im.real_calls = 0
             try:
                 r = im.do(op)
             except Exception as e:
@@ -1791,6 +2280,9 @@ def trace(case, judge=True):
                 im.outs.append(Atom("skip"))
                 continue
             prims, res, mutating = r
+            if mutating and im.noop_calls and not im.real_calls and op[0] in ("c", "k", "g", "groups", "L2"):
+                mutating = False           # same value given to a method that compares first: not a change
+                im.bump("call.same-value")
             site = _site(op)
             # runs inside a mutator count for the interval that ends with it
             im.check_runs(site, mutating)
@@ -1804,8 +2296,8 @@ def trace(case, judge=True):
             im.had_cached = any(obj.representationKeys() for _, obj in im.tracked())
             im.bump("op." + op[0])
             if with_model:
-                im.lines.append([Atom("seq")] + prims)
-                im.outs.append([list(res), im.digest(), True])
+                im.lines.append([Atom("seq")] + prims + [im.observed(fp_before)])
+                im.outs.append([list(res), im.digest(), True, NO_CELLS])
             else:
                 im.lines.append([Atom("skip")])
                 im.outs.append(Atom("skip"))
@@ -1815,6 +2307,8 @@ def trace(case, judge=True):
 
 
 Impl.had_cached = False
+Impl.noop_calls = 0
+Impl.real_calls = 0
 Impl.no_runs_clause = False
 Impl.interval_before = {}
 Impl.cached_before = set()
